@@ -122,6 +122,13 @@ def to_py(n, env):
         a, ta = to_py(n["t"] if isinstance(n.get("t"), dict) else n["a"], env)
         b, tb = to_py(n["f"] if isinstance(n.get("f"), dict) else n["b"], env)
         return "((%s) if (%s) else (%s))" % (a, c, b), _common(ta, tb)
+    if k == "call" and n.get("callee") in ("std::max", "std::min") and len(n.get("args", [])) == 2:
+        # same-type template arguments: the value is the larger / smaller operand, no conversion happens
+        a, ta = to_py(n["args"][0], env)
+        b, tb = to_py(n["args"][1], env)
+        if ta != tb:
+            raise NotPure("std::%s of %s and %s" % (n["callee"][5:], ta, tb))
+        return "(%s((%s), (%s)))" % ("max" if n["callee"] == "std::max" else "min", a, b), ta
     raise NotPure("node kind %s" % k)
 
 
